@@ -600,6 +600,9 @@ func runDoc(src string, kind string, tags []string) (vlib.Case, bool) {
 		// crash while generating boxes: outside the fix-up model; reported by C01
 		return vlib.Case{}, false
 	}
+	if inBox.Box().IsRunning() {
+		tags = append(tags, "root-running")
+	}
 	dpIn := &dumper{d: dA, types: map[int]int{}}
 	dpIn.desc.WriteString("BEFORE FIX-UP\n")
 	inTerm := dpIn.in(inBox, 0)
